@@ -220,8 +220,14 @@ def check_window(trace, S, dt, cut):
     L, A = len(trace), len(trace[0])
     M = np.eye(3) * 6.0
     traj = concretise.vib_traj(A, L, M, dt)
+    # the full trajectory also holds a framework species vibrating differently: the correlation window
+    # must come from the diffusing atoms only
+    full = concretise.vib_traj(A + 2, L, M, dt, species=['Li'] * A + ['O', 'O'])
+    fc = np.array(full.positions)
+    fc[:, A:, :] = fc[:, A:, :] + 0.07 * np.sin(np.arange(L) * 2.9)[:, None, None]
+    full = concretise.make_trajectory(fc, ['Li'] * A + ['O', 'O'], M, time_step=dt, temperature=400.0)
     sites = concretise.make_sites(np.array(SITE_FRAC[:3]), ['A', 'A', 'B'], M)
-    tr = impl.make_transitions(trace, S, trajectory=traj, diff_trajectory=traj, sites=sites)
+    tr = impl.make_transitions(trace, S, trajectory=full, diff_trajectory=traj, sites=sites)
     try:
         j = Jumps(tr)
     except ValueError:
@@ -250,8 +256,8 @@ def run_shard(shard) -> Result:
     tier = shard['tier']
     if shard['kind'] == 'window':
         frames = hop.frame_alphabet(2, 3, False)
-        n = 0
-        for L in (3, 4):
+        for L in (4, 5, 3):
+            n = 0
             for tr_ in itertools.product(frames[1:8], repeat=L):
                 trace = [list(f) for f in tr_]
                 for dt in (1e-15, 5e-14):
@@ -266,7 +272,7 @@ def run_shard(shard) -> Result:
                     for kind, detail in viols:
                         res.violation(kind, {'window_trace': trace, 'dt': dt}, detail)
                 n += 1
-                if tier == 'quick' and n >= 300:
+                if n >= (120 if tier == 'quick' else 2500):
                     break
         res.stats['window_cases'] += res.evals
         res.states += res.evals
